@@ -88,19 +88,37 @@ func TestC18Punishment(t *testing.T) {
 		}
 
 		var vals []*c18Val
+		window := map[types.TmAddress][24]bool{}
+		firstSnapshot := true
+		restarts := 0
 		cands := map[types.Pubkey]*c18Cand{}
 		var prev types.AppState
 		var slashedBefore *big.Int
 		snapshot := func() {
 			ds := n.App.VerifStateDeliver()
 			vals = vals[:0]
+			// The reference windows are the harness's own: a validator that stays in the set keeps the
+			// window computed from the votes so far (the node's copy is only compared with it, also
+			// after restarts); a validator that enters the set starts with an empty window.
+			next := map[types.TmAddress][24]bool{}
 			for _, v := range ds.Validators.GetValidators() {
 				cv := &c18Val{key: v.PubKey, addr: v.GetAddress()}
-				for i := 0; i < 24; i++ {
-					cv.bits[i] = v.AbsentTimes.GetIndex(i)
+				if bits, stays := window[cv.addr]; stays {
+					cv.bits = bits
+				} else if firstSnapshot {
+					for i := 0; i < 24; i++ {
+						cv.bits[i] = v.AbsentTimes.GetIndex(i) // genesis windows
+					}
 				}
+				for i := 0; i < 24; i++ {
+					if v.AbsentTimes.GetIndex(i) != cv.bits[i] {
+						violation(t, "c18-absence-window", r, "after block %d the absence window of %s is %s, the votes so far give %v", n.LastHeight, cv.key.String()[:12], v.AbsentTimes.String(), cv.bits)
+					}
+				}
+				next[cv.addr] = cv.bits
 				vals = append(vals, cv)
 			}
+			window, firstSnapshot = next, false
 			cands = map[types.Pubkey]*c18Cand{}
 			prev = n.Export()
 			for _, c := range prev.Candidates {
@@ -185,6 +203,9 @@ func TestC18Punishment(t *testing.T) {
 						violation(t, "c18-punished-without-cause", r, "BeginBlock(%d): %s has %d of 24 absences; status %d -> %d, jail %d -> %d", hh, v.key.String()[:12], nv.CountAbsentTimes(), pc.status, c.Status, pc.jailed, c.JailedUntil)
 					}
 				}
+			}
+			for _, v := range vals {
+				window[v.addr] = v.bits
 			}
 			// --- evidence
 			wantSlash, punishedNow, baseOnly, wantSlashBase = nil, nil, true, new(big.Int)
@@ -314,11 +335,18 @@ func TestC18Punishment(t *testing.T) {
 		snapshot()
 		nb := rapid.IntRange(8, scale(50, 120)).Draw(t, "nBlocks")
 		for i := 0; i < nb && !r.Halted; i++ {
+			if i > 0 && sim.U(t, "restart", 8) == 0 {
+				n.Restart()
+				restarts++
+				r.Steps = append(r.Steps, "RESTART")
+				snapshot() // compares the reloaded windows with the reference
+			}
 			if !r.Block(t) {
 				violation(t, "panic", r, "%s", r.PanicReport())
 			}
 		}
 		h.flushExcluded()
+		sim.S.LabelN("C18/restarts", restarts)
 		sim.S.LabelN("C18/switched-off", offs)
 		sim.S.LabelN("C18/jailed", jails)
 		sim.S.LabelN("C18/switched-off-in-grace", graceOffs)
